@@ -40,7 +40,9 @@ import (
 	"os"
 	"path/filepath"
 	"runtime"
+	"regexp"
 	"runtime/debug"
+	"sort"
 	"strconv"
 	"strings"
 	"sync"
@@ -368,6 +370,7 @@ type callOut struct {
 	items  int
 	alloc  uint64
 	leaked int // goroutines the call left behind
+	stuck  int // ... of which parked where only another goroutine could wake them
 	msg    string
 }
 
@@ -377,6 +380,7 @@ type callOut struct {
 func measured(f func(ctx context.Context) (int, error)) (o callOut) {
 	ctx, cancel := context.WithCancel(context.Background())
 	base := runtime.NumGoroutine()
+	baseIDs := goroutineIDs()
 	runtime.GC()
 	var m0, m1 runtime.MemStats
 	runtime.ReadMemStats(&m0)
@@ -412,8 +416,114 @@ func measured(f func(ctx context.Context) (int, error)) (o callOut) {
 	}
 	if n := runtime.NumGoroutine() - base; n > 0 {
 		o.leaked = n
+		// Which of them can never finish? A goroutine that is parked on a
+		// channel, a select, a lock or a condition after the call has returned
+		// and its context is cancelled waits for something nobody will do: it
+		// (and what it holds) stays for the life of the process, once per
+		// layer. Runnable or sleeping goroutines are on their way out and are
+		// not counted. Two dumps with yields in between must agree.
+		// Wait until none of the goroutines the call started can still run
+		// (a runnable one might be about to wake a parked one); if some keep
+		// running there is no verdict.
+		var before, after map[string]string
+		for round := 0; round < 400; round++ {
+			var busy int
+			before, busy = blockedGoroutines(baseIDs)
+			if busy == 0 {
+				break
+			}
+			before = nil
+			runtime.Gosched()
+			time.Sleep(time.Millisecond)
+		}
+		if before != nil {
+			for i := 0; i < 100; i++ {
+				runtime.Gosched()
+			}
+			var busy int
+			if after, busy = blockedGoroutines(baseIDs); busy != 0 {
+				after = nil
+			}
+		}
+		var stuck []string
+		for id, where := range after {
+			if before[id] == where {
+				stuck = append(stuck, where)
+			}
+		}
+		if len(stuck) > 0 {
+			sort.Strings(stuck)
+			o.stuck = len(stuck)
+			o.msg = oneLine(o.msg+" goroutines parked for good: "+strings.Join(stuck, "; "), 300)
+		}
 	}
 	return o
+}
+
+var goroutineHeader = regexp.MustCompile(`^goroutine (\d+) \[([^\],]+)`)
+
+// goroutineIDs lists the goroutines alive now.
+func goroutineIDs() map[string]bool {
+	ids := map[string]bool{}
+	for _, g := range strings.Split(allStacks(), "\n\n") {
+		if m := goroutineHeader.FindStringSubmatch(g); m != nil {
+			ids[m[1]] = true
+		}
+	}
+	return ids
+}
+
+func allStacks() string {
+	buf := make([]byte, 1<<20)
+	for {
+		n := runtime.Stack(buf, true)
+		if n < len(buf) {
+			return string(buf[:n])
+		}
+		buf = make([]byte, 2*len(buf))
+	}
+}
+
+// blockedGoroutines maps the id of every goroutine that is not in base and is
+// parked in a state only another goroutine can end to the innermost function
+// of its stack that is not the runtime's; busy counts the goroutines not in
+// base that are in any other state (running, runnable, sleeping, in a system
+// call, waiting for I/O).
+func blockedGoroutines(base map[string]bool) (out map[string]string, busy int) {
+	out = map[string]string{}
+	self := goroutineHeader.FindStringSubmatch(allStacksSelf())
+	for _, g := range strings.Split(allStacks(), "\n\n") {
+		m := goroutineHeader.FindStringSubmatch(g)
+		if m == nil || base[m[1]] || (self != nil && m[1] == self[1]) {
+			continue
+		}
+		switch m[2] {
+		case "chan receive", "chan send", "select", "semacquire", "sync.Cond.Wait", "sync.Mutex.Lock", "sync.RWMutex.RLock", "sync.RWMutex.Lock", "chan receive (nil chan)", "chan send (nil chan)", "select (no cases)":
+		default:
+			busy++
+			continue
+		}
+		where := "?"
+		lines := strings.Split(g, "\n")
+		for i := 1; i < len(lines); i += 2 {
+			f := lines[i]
+			if !strings.HasPrefix(f, "runtime.") && !strings.HasPrefix(f, "internal/") && !strings.HasPrefix(f, "sync.") {
+				if p := strings.LastIndexByte(f, '('); p > 0 {
+					f = f[:p]
+				}
+				where = m[2] + " in " + f
+				break
+			}
+		}
+		out[m[1]] = where
+	}
+	return out, busy
+}
+
+// allStacksSelf is the stack of the calling goroutine only.
+func allStacksSelf() string {
+	buf := make([]byte, 4096)
+	return string(buf[:runtime.Stack(buf, false)])
 }
 
 func scanWith(s indexer.VersionedScanner, l *claircore.Layer) func(context.Context) (int, error) {
@@ -489,7 +599,7 @@ func (w *workerState) layerCalls(blob []byte, idx []int, report bool) {
 		return 0, l.Init(ctx, &desc, bytes.NewReader(blob))
 	})
 	if report {
-		w.send('R', fmt.Sprintf("-1 %s 0 %d %d %s", o.status, o.alloc, o.leaked, o.msg))
+		w.send('R', fmt.Sprintf("-1 %s 0 %d %d/%d %s", o.status, o.alloc, o.leaked, o.stuck, o.msg))
 	}
 	if o.status == "ok" {
 		w.seq = map[int]string{}
@@ -513,7 +623,7 @@ func (w *workerState) layerCalls(blob []byte, idx []int, report bool) {
 				w.seq[i] = fmt.Sprintf("%s/%d", o.status, o.items)
 			}
 			if report {
-				w.send('R', fmt.Sprintf("%d %s %d %d %d %s", i, o.status, o.items, o.alloc, o.leaked, o.msg))
+				w.send('R', fmt.Sprintf("%d %s %d %d %d/%d %s", i, o.status, o.items, o.alloc, o.leaked, o.stuck, o.msg))
 			}
 		}
 		func() {
